@@ -105,6 +105,8 @@ def main():
             {"name": "amb", "path": "spec/Amb.tla", "serves_properties": ["C08"], "kind_free_text": "TLC exploration of the reference product, tie sets vs captured graph errors"},
             {"name": "lexspec", "path": "spec/LexSpec.tla", "serves_properties": ["C03", "C04", "C05", "C06", "C07", "C12", "C20"], "kind_free_text": "reference lexer on explicit inputs (sequence level, liveness, chunked protocol) + replay; Modes.tla, RefUtf8.tla"},
             {"name": "graphlex", "path": "spec/GraphLex.tla", "serves_properties": ["C01", "C03", "C05", "C06", "C20"], "kind_free_text": "micro-step model of the generated code, model-checked against the reference lexer; GraphTrace.tla validates recorded traces against it step by step (drift level)"},
+            {"name": "compile", "path": "spec/Compile.tla", "serves_properties": ["C01"], "kind_free_text": "the four passes of Graph::new transcribed and compared with the hook's pass snapshots (drift level); Attempt.tla on every snapshot"},
+            {"name": "regex", "path": "spec/Regex.tla", "serves_properties": ["C09", "C01"], "kind_free_text": "regex ASTs: Complexity (priorities), Matches (textbook semantics, RegexAgree against the real lexers)"},
             {"name": "lextrace", "path": "spec/LexTrace.tla", "serves_properties": ["C03", "C04", "C05", "C06", "C20"], "kind_free_text": "trace validation of recorded hook events (code -> spec)"},
             {"name": "api", "path": "spec/LexerAPI.tla", "serves_properties": ["C14", "C15"], "kind_free_text": "API state machine over lexer objects + history replay"},
             {"name": "callbacks", "path": "spec/Callbacks.tla", "serves_properties": ["C13"], "kind_free_text": "callback decision table + replay"},
